@@ -74,6 +74,50 @@ def build_mirror():
     mirror.build(WS, mirror_appends)
 
 
+def baseline_harness_files(current_prop):
+    """Every property's harness modules are compiled into the mirrors on every run (so that
+    switching between properties does not invalidate the Kani build).  The files of the
+    properties that are NOT being checked are regenerated here in their baseline form
+    (quick tier, seed 0): a deterministic function of /repo's current tree."""
+    files = {}
+    for prop in ALL_PROPS:
+        if prop == current_prop:
+            continue
+        try:
+            m = importlib.import_module("units." + prop)
+        except ModuleNotFoundError:
+            continue
+        if not hasattr(m, "harness_modules"):
+            continue
+        pl = Plan(prop)
+        try:
+            m.plan(pl, "quick", 0)
+            files.update(pl.harness_files)
+        except Exception as e:   # anchor lost etc.: leave that property's modules empty
+            for hm in m.harness_modules():
+                files[os.path.join(GEN, hm["gen"])] = "// not generated: %s\n" % (str(e)[:200].replace("\n", " "))
+    return files
+
+
+def stub_property_files(prop):
+    m = importlib.import_module("units." + prop)
+    for hm in m.harness_modules():
+        with open(os.path.join(GEN, hm["gen"]), "w") as f:
+            f.write("// stubbed: this property's harness module did not compile against the current tree\n")
+
+
+def write_files(files):
+    for path, text in files.items():
+        os.makedirs(os.path.dirname(path), exist_ok=True)
+        old = None
+        if os.path.exists(path):
+            with open(path) as f:
+                old = f.read()
+        if old != text:
+            with open(path, "w") as f:
+                f.write(text)
+
+
 def write_harness_files(plan):
     for path, text in plan.harness_files.items():
         os.makedirs(os.path.dirname(path), exist_ok=True)
@@ -103,13 +147,35 @@ def run_plan(plan, tier, seed, t0):
     # ---- Kani groups (sequential; each uses all cores)
     if os.environ.get("VERIF_SKIP_KANI"):   # development only
         plan.kani = []
+    hf = os.environ.get("VERIF_HARNESS_FILTER")   # development only: restrict to harnesses containing one of these substrings
+    if hf:
+        subs = hf.split(",")
+        for g in plan.kani:
+            g["harness"] = {h: o for h, o in g["harness"].items() if any(x in h for x in subs)}
+            g["filters"] = sorted(g["harness"])
+        plan.kani = [g for g in plan.kani if g["harness"]]
     if plan.kani:
         build_mirror()
+        write_files(baseline_harness_files(plan.prop))
         write_harness_files(plan)
     for g in plan.kani:
         log = os.path.join(logs, "kani_%s_%s.log" % (g["package"], hashlib.md5(" ".join(g["filters"]).encode()).hexdigest()[:6]))
-        r = vlib.run_kani(g["package"], g["filters"], g["harness"], jobs=g.get("jobs"), timeout=g.get("timeout", 3000),
-                          extra=g.get("extra", ()), log=log)
+        for attempt in range(3):
+            r = vlib.run_kani(g["package"], g["filters"], g["harness"], jobs=g.get("jobs"), timeout=g.get("timeout", 3000),
+                              extra=g.get("extra", ()), log=log, harness_timeout=(g.get("harness_timeout") or (300 if tier == "quick" else 1500)))
+            # a harness module of ANOTHER property that no longer compiles must not blind this check: stub it and retry
+            culprit = None
+            if r.get("build_error"):
+                with open(log, errors="replace") as lf:
+                    mm = re.search(r"-->\s*%s/(C\d+)/" % re.escape(GEN), lf.read())
+                if mm and mm.group(1) != plan.prop:
+                    culprit = mm.group(1)
+            if not culprit:
+                break
+            print("NOTE: harness module of %s does not compile against the current tree; stubbed for this run" % culprit)
+            stub_property_files(culprit)
+            for ob in g["harness"].values():
+                ob.status, ob.detail = "undecided", ""
         g["result"] = r
         if r["machinery_error"]:
             machinery.append("kani %s: %s" % (g["package"], r["machinery_error"]))
